@@ -868,6 +868,7 @@ func initState(m *Machine, pkgs ...string) *State {
 // eofVal / unexpectedEOFVal stand for io.EOF and io.ErrUnexpectedEOF.
 var eofVal = IfaceV{T: types.NewPointer(types.Typ[types.String]), V: "io.EOF"}
 var unexpectedEOFVal = IfaceV{T: types.NewPointer(types.Typ[types.String]), V: "io.ErrUnexpectedEOF"}
+var errUnknownIssuerVal = IfaceV{T: types.NewPointer(types.Typ[types.String]), V: "openpgp/errors.ErrUnknownIssuer: signature made by unknown entity"}
 var errBufferFullVal = IfaceV{T: types.NewPointer(types.Typ[types.String]), V: "bufio.ErrBufferFull"}
 
 func installIOGlobals(m *Machine) {
@@ -1071,6 +1072,42 @@ func installLineReader(m *Machine, next func(st *State) (string, bool)) {
 			e = eofVal
 		}
 		return []Val{&TupleV{E: []Val{byteSliceVal(st, []byte(rest[:n])), e}}}, true
+	}
+	// Discard(n) and ReadByte consume bytes from the same stream
+	m.Hooks["(*bufio.Reader).Discard"] = func(m *Machine, st *State, call *ssa.CallCommon, args []Val) ([]Val, bool) {
+		n, ok := args[1].(int64)
+		if !ok || n < 0 {
+			return nil, false
+		}
+		done := int64(0)
+		for done < n {
+			l, ok := take(st)
+			if !ok {
+				return []Val{&TupleV{E: []Val{done, eofVal}}}, true
+			}
+			if int64(len(l)) <= n-done {
+				done += int64(len(l))
+				continue
+			}
+			pending, havePending = l[n-done:], true
+			done = n
+		}
+		return []Val{&TupleV{E: []Val{done, nilV{}}}}, true
+	}
+	m.Hooks["(*bufio.Reader).ReadByte"] = func(m *Machine, st *State, call *ssa.CallCommon, args []Val) ([]Val, bool) {
+		for {
+			l, ok := take(st)
+			if !ok {
+				return []Val{&TupleV{E: []Val{int64(0), eofVal}}}, true
+			}
+			if l == "" {
+				continue
+			}
+			if len(l) > 1 {
+				pending, havePending = l[1:], true
+			}
+			return []Val{&TupleV{E: []Val{int64(l[0]), nilV{}}}}, true
+		}
 	}
 	delimited := func(asBytes bool) HookFn {
 		return func(m *Machine, st *State, call *ssa.CallCommon, args []Val) ([]Val, bool) {
